@@ -170,7 +170,13 @@ impl FeelNumber {
   }
   ///
   pub fn round(&self, rhs: &FeelNumber) -> Self {
-    Self(dec_rescale(&self.0, &dec_minus(&rhs.0)))
+    let rescaled = dec_rescale(&self.0, &dec_minus(&rhs.0));
+    if dec_is_finite(&rescaled) {
+      Self(rescaled)
+    } else {
+      // the requested scale needs more than 34 digits: the number has no digits beyond that scale, nothing is rounded
+      *self
+    }
   }
   ///
   pub fn sqrt(&self) -> Option<Self> {
